@@ -36,11 +36,11 @@ func installPB(c *Ctx) {
 		val := a[2].(Iface)
 		mp, _ := m.v.(*Ptr)
 		if m.t == nil || mp == nil {
-			panic(&goPanic{what: "proto.SetExtension on nil message", pos: c.curPos})
+			panic(&goPanic{what: "proto.SetExtension on nil message", pos: c.cp()})
 		}
 		want := c.extInfoType(e)
 		if val.t == nil || !types.Identical(val.t, want) {
-			panic(&goPanic{what: "proto.SetExtension: invalid type: got " + typeStr(val.t) + ", want " + typeStr(want), pos: c.curPos})
+			panic(&goPanic{what: "proto.SetExtension: invalid type: got " + typeStr(val.t) + ", want " + typeStr(want), pos: c.cp()})
 		}
 		if c.exts == nil {
 			c.exts = map[extKey]Value{}
